@@ -37,7 +37,7 @@ def cases(tier, seed):
     for cs in ("astronomical", "planetary"):
         allp = rq.all_positions(D, 1)
         for i in range(0, len(allp), 12):
-            out.append(dict(cs=cs, positions=allp[i:i + 12], nsub=40 if tier == "quick" else 200, seed=R.randrange(1 << 30), route="enum" if i % 24 == 0 else "single"))
+            out.append(dict(cs=cs, positions=allp[i:i + 12], nsub=40 if tier == "quick" else 200, seed=R.randrange(1 << 30), route="enum" if i % 24 == 0 else ("lockstep" if i % 24 == 12 else "single")))
         nd = 40 if tier == "quick" else 500
         deep = []
         for _ in range(nd):
@@ -172,6 +172,29 @@ def run_case(spec, workdir):
         want = set(pos_list)
         maxd = max(p[0] for p in pos_list)
         tiles = [t for t in toast.generate_tiles(maxd, bottom_only=False, coordsys=cs) if tuple(t.pos) in want]
+    elif spec["route"] == "lockstep":
+        # tiles handed out by two enumerations (one per coordinate system) advanced in lockstep, with a third one started
+        # and dropped in the loop body
+        want = set(pos_list)
+        maxd = max(p[0] for p in pos_list)
+        ocs_ = CS.ASTRONOMICAL if pl else CS.PLANETARY
+        limit = 2 * len(rq.all_positions(maxd, 1)) + 10
+        for i, (ta, to) in enumerate(zip(toast.generate_tiles(maxd, bottom_only=False, coordsys=cs), toast.generate_tiles(maxd, bottom_only=False, coordsys=ocs_))):
+            if i > limit:
+                probs.append("enumerations advanced in lockstep yield more than %d tiles at depth %d (%d exist)" % (limit, maxd, len(rq.all_positions(maxd, 1))))
+                break
+            if i % 9 == 4:
+                g = toast.generate_tiles(maxd, bottom_only=True, coordsys=ocs_)
+                next(g)
+                del g
+            if tuple(ta.pos) in want:
+                tiles.append(ta)
+            if tuple(to.pos) in want:
+                p2 = []
+                check_tile(to, not pl, ocs_, R, 3, p2)
+                probs += ["[other coordinate system, enumerated in lockstep] " + x for x in p2]
+        if {tuple(t.pos) for t in tiles} != want:
+            probs.append("the enumeration advanced in lockstep with another one yielded %d of the %d wanted positions" % (len({tuple(t.pos) for t in tiles}), len(want)))
     elif spec["route"] == "point":
         for p in pos_list:
             rc, rinc = rt.tile_corners(p, pl)
